@@ -262,6 +262,18 @@ def apply_action(mod, act, env, lib):
             out = x.map_blocks(fn, dtype=np.int64 if x.dtype == bool else x.dtype)
         out._verif_blockfn = fn
         return out
+    if a == "MapBlocks2":
+        x, y, dax = X(), env[act["y"] - 1], act["drop"] - 1
+        if lib == "np":
+            return x.sum(axis=dax) + (y if dax == 0 else y.sum())
+        if tuple(y.chunks[0]) != tuple(x.chunks[1]):
+            # map_blocks pairs blocks by index and does not align its inputs (dask does not either): the call is only
+            # meaningful when the shared axis is chunked alike, so the program aligns the operand first
+            y = y.rechunk((x.chunks[1],))
+        fn = make_blockfn2(dax, [tuple(tuple(c) for c in x.chunks), tuple(tuple(c) for c in y.chunks)])
+        out = mod.map_blocks(fn, x, y, drop_axis=dax, dtype=x.dtype)
+        out._verif_blockfn2 = fn
+        return out
     if a == "MapPlain":
         return X() * 2 if lib == "np" else X().map_blocks(block_double, dtype=X().dtype)
     if a == "BlockFirst":
@@ -406,6 +418,28 @@ def block_first(block):
     return block - block.ravel()[0] if block.size else block
 
 
+def make_blockfn2(dax, snaps):
+    """two-input block function for MapBlocks2: records, for every invocation, the block of each input it was handed and
+    the block_info entry that is supposed to describe it"""
+    calls = []
+
+    def fn(a, b, block_info=None):
+        if block_info is not None and 0 in block_info and 1 in block_info:
+            rec = {"inputs": []}
+            for q, blk in ((0, a), (1, b)):
+                bi = block_info[q]
+                rec["inputs"].append({"shape": [int(v) for v in np.shape(blk)],
+                                      "info": {"chunk_location": [int(v) for v in bi["chunk-location"]],
+                                               "array_location": [[int(lo), int(hi)] for lo, hi in bi["array-location"]],
+                                               "num_chunks": [int(v) for v in bi["num-chunks"]], "shape": [int(v) for v in bi["shape"]]}})
+            calls.append(rec)
+        return a.sum(axis=dax) + (b if dax == 0 else b.sum())
+
+    fn.calls = calls
+    fn.snaps = snaps
+    return fn
+
+
 def block_double(block):
     """grid-independent block function (MapPlain action)"""
     return block * 2
@@ -536,8 +570,16 @@ def apply_inplace(act, env, lib, np_env=None):
         t[mask] = v
         return t
     if a == "OutUfunc":
-        other = env[act["y"] - 1] if act["y"] else act["scalar"]
         f = np.add if act["op"] == "add" else np.multiply
+        if "where" in act:
+            src = env[act["y"] - 1]
+            if lib == "np":
+                out = np.array(t, copy=True)
+                f(src, act["scalar"], where=src > act["where"], out=out)
+                return out
+            f(src, act["scalar"], where=src > act["where"], out=t)
+            return t
+        other = env[act["y"] - 1] if act["y"] else act["scalar"]
         if lib == "np":
             return f(t, other)
         f(t, other, out=t)
